@@ -21,7 +21,8 @@ def random_object(rng: random.Random, bits: Optional[int] = None, nsec: Optional
     nsec = nsec or rng.randint(1, 4)
     names = rng.sample(SECTION_NAMES, nsec)
     secs = []
-    addr = rng.choice([0x401000, 0x1000, 0x8048000, 0x10000000])
+    # 0xffffffff81000000: a higher-half (kernel) address needs all 16 digits, objdump prints such rows unpadded in column 0
+    addr = rng.choice([0x401000, 0x1000, 0x8048000, 0x10000000] + ([0xffffffff81000000, 0xffffffff81000000] if bits == 64 else [0xfffff000]))
     for nm in names:
         n = rng.randint(*size)
         secs.append(elf.Section(nm, elf.random_code(rng, n, rng.choice(["uniform", "biased", "biased"])), addr, True))
